@@ -766,6 +766,15 @@ def check_twins_and_large_pools(h: Harness):
         comps = {o: [rng.randint(0, 1) if c < nc - 1 else rng.randint(0, 3) for c in range(nc)] for o in shape}
         mins = [rng.random() < 0.5 for _ in range(nc)]
         k = rng.randint(1, 4)
+        if trial % 2 == 0:
+            # a pass/fail case that three quarters of a big pool pass (dozens stay tied, spread over the whole population) beside a case
+            # that tells everybody apart: whichever comes second works on the survivors of the first
+            n = rng.choice([64, 80])
+            shape = list(range(n))
+            off = rng.randrange(4)
+            comps = {o: [(0 if (o + off) % 4 == 0 else 1), (o * 7) % n] for o in shape}
+            mins = [False, rng.random() < 0.5]
+            k = 4
         rec = Recording(NativeRandomSource(rng.randrange(10**6)))
         pop, res = lexicase_run(shape, comps, mins, False, k, rec)
         emit_lexicase(h, pop, res, rec, list(rec.script), mins, False, k, "large-pool")
